@@ -2006,18 +2006,14 @@ Proof. reflexivity. Qed.
 Lemma run_app l1 l2 s : run (l1 ++ l2) s = run l2 (run l1 s).
 Proof. unfold run. apply fold_left_app. Qed.
 
-Lemma fresh_call_completes s n c :
-  Inv s -> quiet s -> connected s = false -> hd (OOk, false) (script s) = (OOk, false) ->
-  n = length (callers s) -> c = length (conns s) ->
-  let s' := run ([Start; Run n; Resolve n; Run n] ++ [Answer n; Run n]) s in
-  creates s' = S (creates s) /\ protocol s' = Some c /\ ph (getk s' n) = PEnd (ROk c) /\
+Lemma fc_complete s4 n c :
+  ph (getk s4 n) = PReg c -> conn_live (getc s4 c) = true -> getk s4 n = c_ph (PReg c) new_caller ->
+  getc s4 c = n_calls [n] fresh_conn -> length (callers s4) = S n -> length (conns s4) = S c ->
+  let s' := step (step s4 (Answer n)) (Run n) in
+  creates s' = creates s4 /\ protocol s' = protocol s4 /\ ph (getk s' n) = PEnd (ROk c) /\
   conn_live (getc s' c) = true.
 Proof.
-  intros I Q Cn Sc Hn Hc. cbv zeta. rewrite run_app.
-  pose proof (fresh_call_connects s I Q Cn Sc) as F. cbv zeta in F. rewrite <- Hn, <- Hc in F.
-  destruct F as (Cr & Pr & PH & LC & _ & _ & _ & GK & GC & LnK & LcK).
-  remember (run [Start; Run n; Resolve n; Run n] s) as s4 eqn:Hs4. clear Hs4.
-  rewrite !run_cons, run_nil.
+  intros PH LC GK GC LnK LcK. cbv zeta.
   assert (V : valid_open s4 c = true).
   { unfold valid_open. rewrite GC. assert (c < length (conns s4)) by lia. apply Nat.ltb_lt in H. rewrite H. reflexivity. }
   destruct (fc_answer s4 n _ c GK eq_refl eq_refl ltac:(lia) V) as (G5 & C5 & P5 & Cr5).
@@ -2025,8 +2021,22 @@ Proof.
   { simpl step. rewrite PH, V, GK. simpl andb. cbv iota. rewrite mark_callers. unfold updk. simpl. apply upd_length. }
   remember (step s4 (Answer n)) as s5 eqn:Hs5. clear Hs5.
   destruct (fc_done s5 n _ c G5 eq_refl eq_refl eq_refl eq_refl ltac:(lia)) as (PH6 & P6 & Cr6 & Lv6).
-  split; [rewrite Cr6, Cr5, Cr; reflexivity|]. split; [rewrite P6, P5; exact Pr|]. split; [exact PH6|].
+  split; [rewrite Cr6, Cr5; reflexivity|]. split; [rewrite P6, P5; reflexivity|]. split; [exact PH6|].
   rewrite live_getc, Lv6. unfold lives. rewrite C5. fold (lives s4). rewrite <- live_getc. exact LC.
+Qed.
+
+Lemma fresh_call_completes s n c :
+  Inv s -> quiet s -> connected s = false -> hd (OOk, false) (script s) = (OOk, false) ->
+  n = length (callers s) -> c = length (conns s) ->
+  let s' := run ([Start; Run n; Resolve n; Run n] ++ [Answer n; Run n]) s in
+  creates s' = S (creates s) /\ protocol s' = Some c /\ ph (getk s' n) = PEnd (ROk c) /\
+  conn_live (getc s' c) = true.
+Proof.
+  intros I Q Cn Sc Hn Hc. cbv zeta. rewrite run_app, (run_cons (Answer n) [Run n]), (run_cons (Run n) []), run_nil.
+  pose proof (fresh_call_connects s I Q Cn Sc) as F. cbv zeta in F. rewrite <- Hn, <- Hc in F.
+  destruct F as (Cr & Pr & PH & LC & _ & _ & _ & GK & GC & LnK & LcK).
+  pose proof (fc_complete _ n c PH LC GK GC LnK LcK) as G. cbv zeta in G.
+  destruct G as (G1 & G2 & G3 & G4). rewrite G1, G2. auto.
 Qed.
 
 (* ---- (T7) the channel remains usable after close(): a fresh call reconnects (exactly one new
@@ -2044,4 +2054,42 @@ Proof.
   rewrite <- Sc0 in Sc.
   pose proof (fresh_call_completes (step s ChClose) n c I0 Q0 Cn0 Sc (eq_sym Ln0) (eq_sym Lc0)) as F. cbv zeta in F.
   rewrite Cr0 in F. exact F.
+Qed.
+
+(* ================================================================================================ *)
+(* 9. the FIFO schedules used by the correspondence check are schedules (op lists) of `step`         *)
+
+Lemma drain_is_run fuel s : snd (drain fuel s) = run (fst (drain fuel s)) s.
+Proof.
+  revert s; induction fuel; intros s; simpl; auto.
+  destruct (rq s) as [|i r] eqn:E; simpl; auto.
+  specialize (IHfuel (step s (item_op i))). destruct (drain fuel (step s (item_op i))) as [l s'].
+  simpl in *. auto.
+Qed.
+
+Lemma apply_stims_is_run b : forall acc,
+  snd (fold_left (fun acc t => let ops := stim_ops (snd acc) t in (fst acc ++ ops, run ops (snd acc))) b acc) =
+  run (skipn (length (fst acc)) (fst (fold_left (fun acc t => let ops := stim_ops (snd acc) t in (fst acc ++ ops, run ops (snd acc))) b acc))) (snd acc).
+Proof.
+  induction b; intros [l s]; simpl.
+  - rewrite skipn_all. reflexivity.
+  - rewrite IHb. simpl. clear IHb.
+    set (F := fold_left _ b _).
+    assert (P : exists t, fst F = (l ++ stim_ops s a) ++ t).
+    { unfold F. clear F. generalize (l ++ stim_ops s a) (run (stim_ops s a) s). clear. induction b; intros l s; simpl.
+      - exists []. rewrite app_nil_r. auto.
+      - destruct (IHb (l ++ stim_ops s a) (run (stim_ops s a) s)) as [t H]. rewrite H. exists (stim_ops s a ++ t).
+        rewrite !app_assoc. auto. }
+    destruct P as [t P]. rewrite P.
+    rewrite skipn_app, skipn_all, Nat.sub_diag. simpl.
+    rewrite <- app_assoc, skipn_app, skipn_all, Nat.sub_diag. simpl.
+    unfold run at 3. rewrite fold_left_app. reflexivity.
+Qed.
+
+Lemma batch_is_run s b : snd (batch s b) = run (fst (batch s b)) s.
+Proof.
+  unfold batch, apply_stims. pose proof (apply_stims_is_run b ([], s)) as H. simpl in H.
+  destruct (fold_left _ b ([], s)) as [l1 s1]. simpl in H.
+  pose proof (drain_is_run 4000 s1) as D. destruct (drain 4000 s1) as [l2 s2]. simpl in *.
+  rewrite D, H. unfold run. rewrite fold_left_app. reflexivity.
 Qed.
